@@ -83,6 +83,10 @@ def build_entries(repo: Repo) -> List[Tuple[FunctionInfo, tuple]]:
                     for o in other_all:
                         if mname == "eq_with_normal" or cname not in ("Segment", "HalfLine") or mname != "__eq__" or o == me:
                             E.append((m, (me, o)))
+                    if mname == "__eq__" and cname in ("Point", "Line", "Plane", "ConvexPolygon", "ConvexPolyhedron"):
+                        # == against foreign types (C08: False, not an exception, not a conversion)
+                        for o in (VEC, STR, seq("list", NUM), S(("ftuple", (NUM, NUM, NUM))), S("None")):
+                            E.append((m, (me, o)))
                 elif mname == "in_":
                     for o in (S("Line"), S("Plane")):
                         E.append((m, (me, o)))
